@@ -595,6 +595,9 @@ inductive CodecF (m : Mode) : List (Nat × Nat) → {β : Type} → Enc → (Con
       (h : CodecF m T (.optSome e) d v) : CodecF m T e d v
   | wrapSome {β : Type} (T : List (Nat × Nat)) (e : Enc) (d : Cons → Prog (β × Cons)) (v : β)
       (h : CodecF m T e d v) : CodecF m T (.optSome e) d v
+  /-- any other pair for which the round trip has been shown (captured values: C04c) -/
+  | sem {β : Type} (T : List (Nat × Nat)) (e : Enc) (d : Cons → Prog (β × Cons)) (v : β)
+      (h : ∀ bytes, e.write m = .ok bytes → RTF m (TailOK T) bytes d v) : CodecF m T e d v
   /-- a larger follow set is a stronger demand -/
   | weaken {β : Type} (T T' : List (Nat × Nat)) (e : Enc) (d : Cons → Prog (β × Cons)) (v : β)
       (hs : ∀ t ∈ T, t ∈ T') (h : CodecF m T e d v) : CodecF m T' e d v
@@ -695,6 +698,7 @@ theorem codecF_roundtrip (m : Mode) (T : List (Nat × Nat)) {β : Type} (e : Enc
   | wrapSome T e d v h ih =>
     intro bytes hw
     exact ih bytes (by simpa only [Enc.write] using hw)
+  | sem T e d v h => exact h
   | weaken T T' e d v hs h ih =>
     intro bytes hw
     exact rtf_weaken m _ _ bytes d v (fun view hq => tailOK_mono T' T view hs hq) (ih bytes hw)
